@@ -346,7 +346,7 @@ template <> struct Tr<PS> {
   static std::string flags(const D& x) {
     // reduced flag and the reference count of every disjunct's representation
     std::ostringstream os; os << (x.reduced ? "R" : "r");
-    for (D::const_iterator i = x.begin(); i != x.end(); ++i) os << "." << i->prep->references;
+    for (D::const_iterator i = x.begin(); i != x.end(); ++i) { C_Polyhedron c(i->pointset()); os << "." << i->prep->references << (c.is_empty() ? "e" : ""); }
     return os.str();
   }
   static void value(std::ostream& o, const D& x) {
